@@ -261,6 +261,7 @@ GenLine(g, i) ==
 
 GenCount(g) == (g.hi - g.lo) \div g.step + 1
 GenRangeOK(g) == g.lo >= 0 /\ g.hi >= g.lo /\ g.step >= 1
+GenTooMany(g) == (g.hi - g.lo) \div g.step >= MaxGen        \* (stated without computing the count: 32-bit integers)
 
 -----------------------------------------------------------------------------
 (* The denotation.  A parser state is a record; Step gives the SET of states   *)
@@ -268,8 +269,9 @@ GenRangeOK(g) == g.lo >= 0 /\ g.hi >= g.lo /\ g.step >= 1
 (*   cfg  = [defTTL (-1: none), origin, incAllowed, files: <<[name, lines]>>]  *)
 (*   s    = [origin, lastOwner, dirTTL ($TTL value), lastTTL (most recently    *)
 (*           stated), out, err, undef, opens, depth, pol]                      *)
-(* Each record remembers the top-level line it came from (ln) and where its    *)
-(* TTL came from (src): "stated" | "$TTL" | "last" | "default".                *)
+(* Each record remembers the top-level line it came from (ln), where its TTL   *)
+(* came from (src): "stated" | "$TTL" | "last" | "default", and whether it was *)
+(* written as an RR line or expanded from a $GENERATE (via).                   *)
 
 \* pol: the reading of the AMBIG carry-out questions, fixed for a run:
 \*   io / it : owner / TTL state survives the end of an included file
@@ -296,7 +298,7 @@ EffTTL(s, cfg, ttl) ==
   ELSE [st |-> "amb", v |-> 0, src |-> "none"]            \* AMBIG: no TTL ever stated and none configured
 
 \* the record an RR line denotes in state s
-RecordOf(s, cfg, ln, line) ==
+RecordOfVia(s, cfg, ln, line, via) ==     \* via: "rr" | "generate" -- the kind of line the record was written as
   LET o == IF line.owner.k = "omit"
            THEN (IF s.lastOwner.set THEN [st |-> "ok", n |-> s.lastOwner.n]
                  ELSE [st |-> "amb", n |-> <<>>])                                   \* AMBIG: omitted owner on the very first record
@@ -306,7 +308,8 @@ RecordOf(s, cfg, ln, line) ==
       sts == {o.st, t.st, w.st}
   IN [st |-> IF "amb" \in sts THEN "amb" ELSE IF "err" \in sts THEN "err" ELSE "ok",
       rec |-> [owner |-> o.n, ttl |-> t.v, class |-> IF line.class = 0 THEN cIN ELSE line.class,
-               type |-> line.type, rdata |-> w.w, ln |-> ln, src |-> t.src]]
+               type |-> line.type, rdata |-> w.w, ln |-> ln, src |-> t.src, via |-> via]]
+RecordOf(s, cfg, ln, line) == RecordOfVia(s, cfg, ln, line, "rr")
 
 FileIndex(cfg, name) == LET hit == { i \in 1..Len(cfg.files) : cfg.files[i].name = name } IN
                         IF hit = {} THEN 0 ELSE CHOOSE i \in hit : TRUE
@@ -351,10 +354,10 @@ Step(s, cfg, line, ln) ==
                                                           cfg, cfg.files[fi].lines, 1, ln) })
     [] line.k = "generate" ->
          IF ~GenRangeOK(line) THEN {ErrAt(s, ln)}
-         ELSE IF GenCount(line) > MaxGen THEN {ErrAt(s, ln)}
+         ELSE IF GenTooMany(line) THEN {ErrAt(s, ln)}
          ELSE LET n == GenCount(line)
                   gl == [j \in 1..n |-> GenLine(line, line.lo + (j - 1) * line.step)]
-                  rs == [j \in 1..n |-> IF gl[j].st = "ok" THEN RecordOf(s, cfg, ln, gl[j].line)
+                  rs == [j \in 1..n |-> IF gl[j].st = "ok" THEN RecordOfVia(s, cfg, ln, gl[j].line, "generate")
                                         ELSE [st |-> IF gl[j].st = "amb" THEN "amb" ELSE "err", rec |-> <<>>]]
                   bad == { j \in 1..n : rs[j].st # "ok" }
               IN IF \E j \in bad : rs[j].st = "amb" THEN {Undef(s)}
@@ -460,6 +463,7 @@ MinimalLine(S, c, line) ==
                                   ELSE IF oneOrigin /\ own.st = "ok" /\ line.owner.k # "omit" THEN Relativise(own.n, s0.origin) ELSE @,
                        !.ttl = IF omitTTL THEN -1 ELSE @,
                        !.class = IF @ = cIN THEN 0 ELSE @,
+                       !.order = IF omitTTL \/ line.ttl = -1 \/ line.class \in {0, cIN} THEN "tc" ELSE @,   \* order is only meaningful when both are written
                        !.rd = IF oneOrigin THEN RelativeRD(line.type, @, s0.origin) ELSE @]
 
 RECURSIVE RewriteFrom(_, _, _, _, _)
